@@ -106,6 +106,8 @@ func walkSDRs(ctx context.Context, s Session) (SDRRepository, error) {
 			return nil, fmt.Errorf("packet is missing SDR layer: %v", getSDRCmd)
 		}
 		header := headerLayer.(*ipmi.SDR)
+		// the first record is requested as RecordIDFirst, which is not its ID
+		getSDRCmd.Req.RecordID = header.ID
 
 		if header.Type == ipmi.RecordTypeFullSensor {
 			if header.Length > sdrMaxLength {
